@@ -113,6 +113,24 @@ _chain("C05", ["updates_reach_target", "target_spec", "update_no_halt", "genesis
 _chain("C06", ["index_and_queue_exact", "min_stake_step", "status_step", "matures_on_time", "never_early", "end_no_halt"])
 _chain("C09", ["jailed_not_in_target", "jailed_excluded_after_end", "unjail_iff", "unjail_effect", "tombstone_forever", "doublesign_tombstones"])
 
+PROPS["C20"] = {
+    "lean_modules": ["Posmint.Props.C20"], "namespaces": ["Posmint.Props.C20"],
+    "required_theorems": ["Posmint.Props.C20." + t for t in ("uvarint_roundtrip", "varint_roundtrip", "lenPrefixed_roundtrip", "intText_roundtrip",
+                          "coin_roundtrip", "coins_roundtrip", "powerKey_roundtrip", "powerKey_order", "formatCivil_order", "inclusiveEnd_spec", "hex_roundtrip")],
+    "t1": [{"family": "codec", "model": "codec", "stateless": True, "quick_n": 60000, "thorough_n": 3000000, "corpus": "codec"}],
+    "rule": "values and byte strings from boundary-biased generators: uvarints/varints around powers of two and 2^64, Int text of up to 255 bits "
+            "and malformed text, Coin/Coins with empty and maximal denominations and truncated encodings, MsgSend with empty / 20-byte / odd-length "
+            "addresses, power-index keys over the whole power range with all-0x00/0xFF/random addresses, unstaking time keys around second/day/leap "
+            "boundaries from year 1 to 9999; every encoding produced by go-amino / the repo is compared byte for byte with the Lean model and "
+            "decoded back by the implementation; non-trivial = distinct (operation, input, outcome)",
+    "assumptions": ["go-amino's crash-freedom on hostile bytes is tested (truncated and malformed inputs), not proved",
+                    "the amino model covers varints, length-delimited fields, Int text, Coin, Coins, MsgSend; the other wire types (StdTx, the remaining "
+                    "messages, accounts, validators, signing infos) are covered by implementation-side round-trip monitors and by the chain family "
+                    "(every state record and every transaction goes through the real codec and is compared with the model after decoding)",
+                    "sign-bytes canonicity is exercised by the chain family's post-signing mutation cases (C03), not proved in Lean"],
+    "trusted": ["go-amino, encoding/json, time.Format"],
+}
+
 # development-only entry: the chain family with all monitors, no Lean module (not in MANIFEST)
 PROPS["XCHAIN"] = {
     "lean_modules": [], "namespaces": [],
@@ -123,6 +141,13 @@ PROPS["XCHAIN"] = {
 NOT_APPLICABLE = {}
 
 MANIFEST_TEXT = {
+    "C20": {"text": "Lean round-trip and order theorems for the encodings the model covers: uvarint/varint (10-byte bound, exact consumption), "
+                    "length-delimited fields incl. refusal of truncated input, Int decimal text with the 255-bit check, Coin and Coins (with a proved "
+                    "counterexample showing the necessary length bound), injectivity of the Coin encoding; power-index key round-trip and order "
+                    "(power ascending, address descending), InclusiveEndBytes, the fixed-width time key is order preserving and injective for years "
+                    "0-9999, address hex round-trip. Tied byte for byte to go-amino / x/pos key builders by differential runs. Partial: other wire "
+                    "types and sign-byte canonicity are validated by monitors and the chain correspondence, not proved.",
+            "note": "go-amino trusted; crash-freedom on hostile bytes tested", "technique": "Lean 4 proof over executable model + differential correspondence"},
     "C02": {"text": "Lean invariant proved by induction over every operation of the chain model (genesis_inv, step_inv, run_inv): in every state reachable "
                     "from a consistent genesis the recorded supply equals the sum of all balances and every recorded balance is positive; a transaction "
                     "changes the supply only if it is an accepted DAO burn (by exactly the amount), EndBlock never, BeginBlock by exactly the queued "
